@@ -139,6 +139,40 @@ def polymorphic_site_programs(limit=None, rng=None):
     return out
 
 
+def assign_slot_programs():
+    """an assignment to a global written as a SUB-expression in every operand slot (the value of a field write, of an element write, an index, an argument, an operand,
+    a condition, a print argument, a field initializer, an array initializer, a let initializer, a returned value), the global read afterwards directly and through a function"""
+    slots = {
+        'field-write-value': 'stats.hits <- (count <- count + 1)',
+        'element-write-value': 'log[0] <- (count <- count + 1)',
+        'element-write-index': 'log[count <- count + 1] <- 7',
+        'index': 'log[count <- count + 1]',
+        'field-read-receiver': '(count <- count + 1) + stats.hits',
+        'call-argument': 'id(count <- count + 1)',
+        'method-argument': 'stats.m(count <- count + 1)',
+        'operator-right': '10 + (count <- count + 1)',
+        'condition': 'if (count <- count + 1) > 0 then 1 else 2',
+        'loop-condition': 'while (count <- count + 1) < 0 do 0',
+        'print-argument': 'print("~;", count <- count + 1)',
+        'field-initializer': 'object begin let f = (count <- count + 1) end',
+        'array-initializer': 'array(1, begin count <- count + 1 end)',
+        'array-size': 'array(count <- count + 1, 0)',
+        'let-initializer': 'let tmp = (count <- count + 1)',
+        'nested-assignment': 'other <- (count <- count + 1)',
+        'statement': 'count <- count + 1',
+    }
+    pre = 'let count = 0; let other = 0; let stats = object begin let hits = 0; function m(k) -> k end; let log = array(3, 0); function id(v) -> v; function get() -> count; '
+    out = []
+    for sn, e in slots.items():
+        frames = {'top': pre + '%s; %s; print("~ ~\\n", count, get())' % (e, e.replace('let tmp', 'let tmp2')),
+                  'fun': pre + 'function hit() -> begin %s; count end; hit(); hit(); print("~ ~ ~\\n", hit(), count, get())' % e,
+                  'meth': pre + 'let h = object begin function hit() -> begin %s; count end end; h.hit(); print("~ ~ ~\\n", h.hit(), count, get())' % e,
+                  'loop': pre + 'let i = 0; while i < 3 do begin %s; i <- i + 1 end; print("~ ~\\n", count, get())' % e.replace('let tmp =', 'other <-')}
+        for fn, t in frames.items():
+            out.append({'name': 'assignslot:%s/%s' % (sn, fn), 'text': t, 'ast': None})
+    return out
+
+
 def sandwich_programs():
     """a definition with its own control flow between two pieces of control flow of the enclosing body, in every frame kind (labels, temporaries and slots are
     numbered per compilation unit: what is counted before, inside and after a nested definition must not collide)"""
